@@ -112,7 +112,7 @@ class _Unstring(ast.NodeTransformer):
 def _ann_dump(n: Optional[ast.AST], unstring: bool) -> Optional[str]:
     if n is None:
         return None
-    n = copy.deepcopy(n)
+    n = exprnorm.clone(n)
     if unstring:
         n = _Unstring().visit(n)
     return exprnorm.norm_dump(n)
@@ -325,9 +325,9 @@ def _exprs_of_def(src: str) -> List[str]:
                 out.append(ast.unparse(x))
             for arg in list(a.posonlyargs) + list(a.args) + list(a.kwonlyargs) + [z for z in (a.vararg, a.kwarg) if z]:
                 if arg.annotation is not None:
-                    out.append(ast.unparse(_Unstring().visit(copy.deepcopy(arg.annotation))))
+                    out.append(ast.unparse(_Unstring().visit(exprnorm.clone(arg.annotation))))
             if n.returns is not None:
-                out.append(ast.unparse(_Unstring().visit(copy.deepcopy(n.returns))))
+                out.append(ast.unparse(_Unstring().visit(exprnorm.clone(n.returns))))
     return out
 
 
@@ -336,6 +336,8 @@ def _exprs_of_def(src: str) -> List[str]:
 def plan(tier: str, seed: int, scale: float = 1.0) -> List[Any]:
     n = ncpu()
     items: List[Any] = [{'kind': 'layouts', 'part': i, 'nparts': 2 * n, 'maxn': 4} for i in range(2 * n)]
+    # every expression of depth two (C15's reduced enumeration) as a default and, where it can be one, as an annotation
+    items += [{'kind': 'depth2', 'part': i, 'nparts': n} for i in range(n)]
     rn = int((1600 if tier == 'quick' else 30000) * scale)
     for i in range(n):
         items.append({'kind': 'random', 'n': max(1, rn // n), 'seed': seed * 1000 + i})
@@ -399,6 +401,51 @@ def work(item: Dict[str, Any]) -> Acc:
                         return acc
         flush()
         acc.exhaustive_parts.append('all parameter layouts <=%d parameters x 4 return forms x {function, method}' % item['maxn'])
+    elif item['kind'] == 'depth2':
+        def annotation_ok(t: str) -> bool:
+            try:
+                tree = ast.parse(t, mode='eval')
+            except SyntaxError:
+                return False
+            return not any(isinstance(n, (ast.JoinedStr, ast.Starred, ast.NamedExpr, ast.Yield, ast.YieldFrom, ast.Await)) or
+                           (isinstance(n, ast.Constant) and isinstance(n.value, (str, bytes))) for n in ast.walk(tree))
+        todo = [t for i, (_n, t) in enumerate(exprs.depth2(True)) if i % item['nparts'] == item['part']]
+        batch: List[str] = []
+
+        def run_batch() -> bool:
+            if not batch:
+                return True
+            src = 'from typing import List, Dict\n' + '\n'.join(batch) + '\n'
+            d, _n = check_module(src)
+            if d:
+                try:
+                    judge(ID, acc, {'kind': 'module', 'src': src}, d)
+                except Violation as v:
+                    for ln in batch:
+                        try:
+                            dd, _ = check_module(ln + '\n')
+                        except Exception:
+                            continue
+                        if any(sg == v.sig for sg, _m in dd):
+                            v.case = {'kind': 'module', 'src': ln + '\n'}
+                            break
+                    acc.violations.append(v.as_dict())
+                    return False
+            batch.clear()
+            return True
+        for i, t in enumerate(todo):
+            if not expr_ok(t):
+                acc.excluded['uses-expression-with-open-C15-finding-or-truncated'] += 1
+                continue
+            acc.case(nontrivial=True, distinct_by_construction=True, sample=({'default_and_annotation': t} if i % 300 == 0 else None), classes=['depth2-default'])
+            if annotation_ok(t):
+                batch.append('def d%d(p=%s, *, q: %s = None, r=%s) -> %s: pass' % (i, t, t, t, t))
+            else:
+                batch.append('def d%d(p=%s, *, r=%s): pass' % (i, t, t))
+            if len(batch) >= 120 and not run_batch():
+                return acc
+        run_batch()
+        acc.exhaustive_parts.append('every depth-two expression (reduced enumeration) as positional and keyword-only default and, where legal, as annotation and return annotation')
     else:
         from hypothesis import strategies as st
         strat = st.tuples(st_def(), st.lists(st_def(), min_size=3, max_size=3))
